@@ -57,7 +57,9 @@ def _duplicate_last(spec, s, g):
 def faults(rng, enum_ctrls, letters, spec=None, enum=None, g=None):
     """fault items: (kind, bytes)"""
     fs = []
-    fs.append(("nack", bytes([0x84, rng.choice([0x00, 0x9c, 0xff, 0x6c]), 0x00])))
+    # negative acknowledgements: 84 9C (what this terminal family sends) always, and one other code
+    fs.append(("nack", bytes([0x84, 0x9c, 0x00])))
+    fs.append(("nack", bytes([0x84, rng.choice([0x00, 0x83, 0xff, 0x6c, rng.randrange(256)]), 0x00])))
     while True:
         c = (rng.randrange(256), rng.randrange(256))
         if c not in enum_ctrls and c != (0x80, 0x00):
@@ -114,7 +116,7 @@ def check_shape(events, prefix_events):
 
 
 def run(ctx, out):
-    spec = S.load_spec()        # reply alphabets, kinds and final sets from the frozen specification table
+    spec = S.load_spec(plus=ctx.schema)        # reply alphabets, kinds and final sets from the frozen specification table
     rng = ctx.rng
     thorough = ctx.search_tier == "thorough"
     depth = 3 if not thorough else 4
